@@ -421,7 +421,7 @@ pub fn requests() -> Vec<(&'static str, f64)> {
     for n in [2.0, 3.0, 5.0, 10.0, 37.0] {
         r.push(("count", n));
     }
-    for f in [0.9, 1.0 / 2.5, 1.0 / 3.0, 1.0 / 7.3] {
+    for f in [0.9, 0.5, 1.0 / 2.5, 1.0 / 3.0, 0.25, 0.125, 1.0 / 7.3] {
         r.push(("spacing", f));
     }
     for f in [2.0, 1.0, 0.5, 1.0 / 2.5, 1.0 / 7.3] {
